@@ -342,7 +342,20 @@ def fuzz_campaign(ctx, mode, runs):
     out = tempfile.mkdtemp(prefix="fuzz_%s_" % mode, dir=os.path.join(WORK_DIR, ID))
     try:
         ctx.crumb({"family": "atheris-campaign", "mode": mode, "src": ""})
-        p = subprocess.run([sys.executable, "-m", "pv.fuzz_c10", out, str(runs), str(ctx.seed), mode], capture_output=True, text=True)
+        limit = float(os.environ.get("PV_FUZZ_LIMIT") or max(1800, runs * 0.5))
+        try:
+            p = subprocess.run([sys.executable, "-m", "pv.fuzz_c10", out, str(runs), str(ctx.seed), mode], capture_output=True, text=True, timeout=limit)
+        except subprocess.TimeoutExpired:
+            # the campaign did not finish: a case that has been running for minutes is a hang of the code under test
+            cur = os.path.join(out, "current.json")
+            age = time.time() - os.path.getmtime(cur) if os.path.exists(cur) else 0
+            if age > STUCK_S:
+                with open(cur) as f:
+                    case = json.load(f)
+                ctx.stats.violations.append({"signature": "C10:does-not-return-within-cap", "case": case,
+                                             "detail": {"stuck_for_s": round(age), "found_by": "atheris-" + mode}})
+                return
+            raise HarnessError("fuzz campaign (%s, %d runs) exceeded %d s without a stuck case" % (mode, runs, limit))
         try:
             with open(os.path.join(out, "summary.json")) as f:
                 summ = json.load(f)
